@@ -1,6 +1,6 @@
 """Unit `vfs` (C06 name gate, C07 routing, C14 id mapping): src/api/vfs/{mod.rs,sync_io.rs} against the generated
 FileSystem model.  Every spec function below is written from the property text (properties.jsonl), not from the code."""
-from vx.api import Unit, Fn, Copy, Raw, Group, ByteConst
+from vx.api import Unit, Fn, Copy, Raw, Group, ByteConst, Lifted
 from vx import fsmodel, flagsmodel
 
 MOD = 'src/api/vfs/mod.rs'
@@ -36,6 +36,11 @@ proof fn lemma_rt(i: u8, n: u64)
     ensures n <= 0xff_ffff_ffff_ffffu64 ==> VfsInode(enc(i, n)).sidx() == i && VfsInode(enc(i, n)).sino() == n,
 {
     if n <= 0xff_ffff_ffff_ffffu64 { lemma_enc_roundtrip(i, n); }
+}
+proof fn lemma_enc_zero(n: u64)
+    ensures enc(0, n) == n
+{
+    assert(((0u8 as u64) << 56) | n == n) by (bit_vector);
 }
 proof fn lemma_enc_decompose(v: u64)
     ensures enc((v >> 56) as u8, v & 0xff_ffff_ffff_ffffu64) == v,
@@ -287,6 +292,11 @@ def routed_fn(name, d, info):
             bres = 'ioctl_res(res) == self.be(i).%s()' % mi['resfn']
         else:
             bres = 'res == self.be(i).%s()' % mi['resfn']
+    # pseudo fs attributes carry internal owner ids too ("the client sees every returned owner id ... translated back")
+    if conv == 'attr' and not d.get('setattr'):
+        pres = 'self.conv_attr(rt.id(), self.root.%s(), res)' % mi['resfn']
+    else:
+        pres = 'res == self.root.%s()' % mi['resfn']
     ens = []
     if d.get('names'):
         ens.append('!(%s) ==> is_einval(res) // [C06.vfs.%s.gate]' % (gate, name))
@@ -294,10 +304,10 @@ def routed_fn(name, d, info):
         ens.append('(%s) && !(%s) ==> is_enosys(res) // [C12.vfs.%s.%s]' % (gate, gate_opt, name, d['opt']))
     ens.append('''({ let rt = self.route(%(ino)s);
            (%(gate)s) && (%(gopt)s) ==> match rt {
-               Route::Pseudo(n) => res == self.root.%(rf)s(),
+               Route::Pseudo(n) => %(pres)s,
                Route::Backend(i, n) => %(bres)s,
                Route::Vacant => is_enoent(res) } }) // [C07.%(op)s.result]%(c14)s''' % dict(
-        ino=ino, gate=gate, gopt=gate_opt, op=name, bres=bres, rf=mi['resfn'], c14=('[C14.%s.ids]' % name) if conv else ''))
+        ino=ino, gate=gate, gopt=gate_opt, op=name, bres=bres, rf=mi['resfn'], pres=pres, c14=('[C14.%s.ids]' % name) if conv else ''))
     sig_subst = [('Self::Inode', 'VfsInode')] if False else []
     return dict(requires=req, ensures=ens)
 
@@ -305,7 +315,8 @@ def routed_fn(name, d, info):
 CONV_ENTRY_CLOSURE = ('|e|', 'closure', '|e: Entry| -> (q: Result<Entry>) ensures self.conv_entry(idata.sidx(), Ok::<Entry, Error>(e), q)')
 ATTR_CLOSURE = ('|tp_1|', 'closure', '|tp_1: (stat64, Duration)| -> (q: (stat64, Duration)) ensures q == (self.attr_out(idata, tp_1.0), tp_1.1)')
 SPLICES = {
-    'getattr': [ATTR_CLOSURE], 'setattr': [ATTR_CLOSURE],
+    'getattr': [ATTR_CLOSURE, ('|tp_2|', 'closure', '|tp_2: (stat64, Duration)| -> (q: (stat64, Duration)) ensures q == (self.attr_out(idata, tp_2.0), tp_2.1)')],
+    'setattr': [ATTR_CLOSURE],
     'create': [('|a|', 'closure', '|a: Entry| -> (q: (Entry, Option<u64>, OpenOptions, Option<u32>)) ensures q == (a, b, c, d)'),
                ('|tp_1|', 'closure', '|tp_1: (Entry, Option<u64>, OpenOptions, Option<u32>)| -> (q: Result<(Entry, Option<u64>, OpenOptions, Option<u32>)>) ensures match q { Ok(t) => tp_1.0.inode <= 0xff_ffff_ffff_ffffu64 && t == (self.entry_out(idata.sidx(), tp_1.0.inode, tp_1.0), tp_1.1, tp_1.2, tp_1.3), Err(_) => tp_1.0.inode > 0xff_ffff_ffff_ffffu64 }')],
     'symlink': [CONV_ENTRY_CLOSURE], 'mknod': [CONV_ENTRY_CLOSURE], 'mkdir': [CONV_ENTRY_CLOSURE],
@@ -322,6 +333,7 @@ def unit(root='/repo'):
         Copy(FSMOD, r'pub struct Context\b', prefix='#[derive(Clone, Copy)]', subst=[('libc::uid_t', 'u32'), ('libc::gid_t', 'u32'), ('libc::pid_t', 'i32')]),
         Copy(FSMOD, r'pub struct Entry\b', prefix='#[derive(Clone, Copy)]'),
         Copy(FSMOD, r'pub struct FileLock\b', prefix='#[derive(Clone, Copy)]'),
+        Copy(FSMOD, r'pub struct DirEntry\b', prefix='#[derive(Clone, Copy)]', subst=[('ino64_t', 'u64')]),
         Copy(FSMOD, r'pub struct IoctlData\b'),
         Copy(FSMOD, r'pub enum GetxattrReply\b'),
         Copy(FSMOD, r'pub enum ListxattrReply\b'),
@@ -396,7 +408,7 @@ impl vstd::std_specs::convert::FromSpecImpl<u64> for VfsInode {
            ensures=['match r { Ok(fs) => self.sb()[fs_idx as int] == Some(fs), Err(_) => self.sb()[fs_idx as int] is None && is_enoent(r) } // [C07.slot]'], props=P),
         Fn(MOD, 'impl Vfs', 'get_real_rootfs', requires=['self.wf()'],
            ensures=['''match self.route(inode) {
-                Route::Pseudo(n) => r is Ok && r->Ok_0.0 == Either::<&PseudoFs, ArcBackFs>::Left(&self.root) && r->Ok_0.1.sidx() == 0 && r->Ok_0.1.sino() == n,
+                Route::Pseudo(n) => r is Ok && r->Ok_0.0 == Either::<&PseudoFs, ArcBackFs>::Left(&self.root) && r->Ok_0.1 == inode && r->Ok_0.1.sidx() == 0 && r->Ok_0.1.sino() == n,
                 Route::Backend(i, n) => r is Ok && r->Ok_0.0 == Either::<&PseudoFs, ArcBackFs>::Right(self.sb()[i as int]->Some_0) && r->Ok_0.1 == VfsInode(enc(i, n)) && n <= 0xff_ffff_ffff_ffffu64 && i != 0,
                 Route::Vacant => is_enoent(r) } // [C07.route]'''], props=P, canary=True,
            splices=[('^', 'after', 'broadcast use axiom_arc_cloned; proof { lemma_ino_mask(0); lemma_enc_decompose(inode.0); }'),
@@ -417,7 +429,7 @@ impl vstd::std_specs::convert::FromSpecImpl<u64> for VfsInode {
         src_sig = fsmodel  # noqa
         routed.append(Fn(SYNC, SC, name, requires=c['requires'], ensures=c['ensures'], props=['C07'],
                          sig_subst=[x for x in SIGSUB if True], lenient_sig=True, ret_name='res', canary=True,
-                         splices=[('^', 'after', 'proof { lemma_rt(self.route(%s).idx(), self.route(%s).ino()); }' % (d['ino'], d['ino']))] + SPLICES.get(name, [])))
+                         splices=[('^', 'after', 'proof { lemma_rt(self.route(%s).idx(), self.route(%s).ino()); lemma_enc_decompose(%s.0); }' % (d['ino'], d['ino'], d['ino']))] + SPLICES.get(name, [])))
     def two(op, a, b, args_p, args_b, conv=None):
         gate = 'safe_name(%s@)' % ('oldname' if op == 'rename' else 'newname') + (' && safe_name(newname@)' if op == 'rename' else '')
         okres = 'res == self.root.%s()' % ('res_unit' if op == 'rename' else 'res_entry')
@@ -498,6 +510,44 @@ impl vstd::std_specs::convert::FromSpecImpl<u64> for VfsInode {
                     forall|k: int| 0 <= k < 256 && (#[trigger] self.sb()[k]) is Some ==> (*self.sb()[k]->Some_0).touch_ok()
                         && (forall|o: FsOptions| #[trigger] (*self.sb()[k]->Some_0).allowed_init(o) <==> (!self.initialized.cur() && o.bits == vfs_out(self.opts.cur(), opts))),
             {''')]))
+    # ---- the entry-rewriting closures of Vfs::readdir / readdirplus, lifted (R17): what the client sees for each directory entry
+    DE = "DirEntry<'b>"
+    WF = ['self.wf()', 'self.mount_wf()']
+    PSEUDO = WF + ['idata.sidx() == 0']
+    BACK = WF + ['self.route(inode) == Route::Backend(idata.sidx(), idata.sino())', 'idata.sino() <= 0xff_ffff_ffff_ffffu64']
+    same_d = 'res->Ok_0.offset == dir_entry.offset && res->Ok_0.type_ == dir_entry.type_ && res->Ok_0.name@ == dir_entry.name@'
+    same_d2 = 'res->Ok_0.0.offset == dir_entry.offset && res->Ok_0.0.type_ == dir_entry.type_ && res->Ok_0.0.name@ == dir_entry.name@'
+    MNT_INO = '(if self.mp()[dir_entry.ino].ino == 0 { 0u64 } else { enc(self.mp()[dir_entry.ino].fs_idx, self.mp()[dir_entry.ino].ino) })'
+    routed += [
+        # "the inode number the client sees for a name is the same in lookup, getattr, readdir and readdirplus"
+        Lifted(SYNC, SC, 'readdir', 0, "fn readdir_pseudo_entry<'b>(&self, inode: VfsInode, idata: VfsInode, mut dir_entry: %s) -> (res: Result<%s>)" % (DE, DE), 'add_entry',
+               requires=PSEUDO, props=['C07'], canary=True,
+               ensures=['res is Ok ==> %s && res->Ok_0.ino == (if self.mp().contains_key(dir_entry.ino) { %s } else { dir_entry.ino }) // [C07.readdir.pseudo.ino]' % (same_d, MNT_INO)],
+               splices=[('^', 'after', 'broadcast use axiom_arc_cloned; proof { lemma_enc_zero(dir_entry.ino); }')]),
+        Lifted(SYNC, SC, 'readdir', 1, "fn readdir_backend_entry<'b>(&self, inode: VfsInode, idata: VfsInode, mut dir_entry: %s) -> (res: Result<%s>)" % (DE, DE), 'add_entry',
+               requires=BACK, props=['C07'], canary=True,
+               ensures=['res is Ok ==> %s && res->Ok_0.ino == (if dir_entry.ino == 0 { 0u64 } else { enc(idata.sidx(), dir_entry.ino) }) // [C07.readdir.backend.ino]' % same_d]),
+        Lifted(SYNC, SC, 'readdirplus', 0, "fn readdirplus_pseudo_entry<'b>(&self, inode: VfsInode, idata: VfsInode, mut dir_entry: %s, mut entry: Entry) -> (res: Result<(%s, Entry)>)" % (DE, DE), 'add_entry',
+               requires=PSEUDO, props=['C07', 'C14'], canary=True,
+               ensures=['''res is Ok ==> %s && (if self.mp().contains_key(dir_entry.ino) {
+                            // a mountpoint is listed as the mounted file system's root, exactly as lookup returns it
+                            res->Ok_0.0.ino == %s && no_ids(res->Ok_0.1) == no_ids(self.entry_out(self.mp()[dir_entry.ino].fs_idx, self.mp()[dir_entry.ino].ino, backend_root(*self.mp()[dir_entry.ino])))
+                        } else {
+                            res->Ok_0.0.ino == dir_entry.ino && no_ids(res->Ok_0.1) == no_ids(Entry { inode: dir_entry.ino, attr: stat64 { st_ino: dir_entry.ino, ..entry.attr }, ..entry })
+                        }) // [C07.readdirplus.pseudo.ino]''' % (same_d2, MNT_INO),
+                        '''res is Ok ==> (if self.mp().contains_key(dir_entry.ino) {
+                            res->Ok_0.1.attr.st_uid == self.entry_out(self.mp()[dir_entry.ino].fs_idx, self.mp()[dir_entry.ino].ino, backend_root(*self.mp()[dir_entry.ino])).attr.st_uid
+                            && res->Ok_0.1.attr.st_gid == self.entry_out(self.mp()[dir_entry.ino].fs_idx, self.mp()[dir_entry.ino].ino, backend_root(*self.mp()[dir_entry.ino])).attr.st_gid
+                        } else {
+                            // pseudo directories are owned by internal ids too: translated like lookup does (mapping of index 0 = the global one)
+                            res->Ok_0.1.attr.st_uid == to_ext(self.eff_map(0), entry.attr.st_uid) && res->Ok_0.1.attr.st_gid == to_ext(self.eff_map(0), entry.attr.st_gid)
+                        }) // [C14.readdirplus.pseudo.ids]'''],
+               splices=[('^', 'after', 'broadcast use axiom_arc_cloned; proof { lemma_enc_zero(dir_entry.ino); }')]),
+        Lifted(SYNC, SC, 'readdirplus', 1, "fn readdirplus_backend_entry<'b>(&self, inode: VfsInode, idata: VfsInode, mut dir_entry: %s, mut entry: Entry) -> (res: Result<(%s, Entry)>)" % (DE, DE), 'add_entry',
+               requires=BACK, props=['C07', 'C14'], canary=True,
+               ensures=['res is Ok ==> %s && res->Ok_0.0.ino == res->Ok_0.1.inode && no_ids(res->Ok_0.1) == no_ids(self.entry_out(idata.sidx(), entry.inode, entry)) // [C07.readdirplus.backend.ino]' % same_d2,
+                        'res is Ok ==> res->Ok_0.1 == self.entry_out(idata.sidx(), entry.inode, entry) // [C14.readdirplus.backend.ids]']),
+    ]
     items.append(Group('impl Vfs {', routed))
     u = Unit('vfs', items, preludes=['base.rs', 'stdmodel.rs', 'names.rs', 'vfs.rs'], generic_tags={'cap': ['C07'], 'touch': ['C06'], 'ids': ['C14'], 'store': ['C12']},
              notes='\n'.join(notes))
